@@ -371,8 +371,20 @@ static void run_op(const std::vector<std::string> &w, const std::string &, out &
     size_t k = 1;
     long limit = -1;
     bool is_sn = op == "sn" || op == "vsn";
+    // sn/vsn with a declared size above 4096 ("the buffer is large enough": SIZE_MAX, INT_MAX + 1, ...):
+    // the allocation is exactly output + terminator, the declared size is passed as it is
+    unsigned long long declared = 0;
+    bool sn_big = false;
     if ((op == "fd" || op == "fdv" || is_sn) && w.size() > 1)
-        limit = strtol(w[k++].c_str(), 0, 10); // fd: error limit; sn: buffer size
+    {
+        if (is_sn && w[k].size() && w[k][0] != '-')
+        {
+            declared = strtoull(w[k].c_str(), 0, 10);
+            sn_big = declared > 4096;
+        }
+        limit = sn_big ? 0 : strtol(w[k].c_str(), 0, 10); // fd: error limit; sn: buffer size
+        k++;
+    }
     if (!(op == "pf" || op == "pfmin" || op == "sp" || op == "spv" || op == "fd" || op == "iso" || op == "fdv" || is_sn) || w.size() <= k || (is_sn && (limit < 0 || limit > 4096)))
     {
         o.result = "bad-op";
@@ -491,6 +503,22 @@ static void run_op(const std::vector<std::string> &w, const std::string &, out &
         expect.push_back(0);
         if (r2 != ret || b.vec() != expect)
             o.fail("vsprintf/sprintf differs from __printf + terminator");
+    }
+    else if (is_sn && sn_big)
+    {
+        // the caller says "large enough" (size_t values up to SIZE_MAX): everything must be stored
+        exact_buf b(out.size() + 1);
+        memset(b.p, 0xA5, b.n);
+        Call v{op == "sn" ? W_SNPRINTF : W_VSNPRINTF, nullptr, (char *)b.p, (size_t)declared};
+        long r2 = dispatch(&v, fmt, args, 0);
+        o.result = res(r2, b.vec());
+        bytes expect = out;
+        expect.push_back(0);
+        if (r2 != ret)
+            o.fail("snprintf returns " + std::to_string(r2) + ", the whole output has " + std::to_string(ret) + " characters");
+        else if (b.vec() != expect)
+            o.fail("snprintf with a size larger than the output did not store the whole output and a terminator");
+        o.tag("sn-huge-size");
     }
     else if (is_sn)
     {
@@ -880,6 +908,23 @@ static void emit_n(const char *op, long n, const bytes &f, const std::vector<Arg
     printf("%s %ld %s\n", op, n, line.c_str());
     g_emitted++;
 }
+// the same with the number given as text (declared sizes up to SIZE_MAX)
+static void emit_s(const char *op, const char *n, const bytes &f, const std::vector<Arg> &args)
+{
+    if (args.size() > MAXARGS)
+        return;
+#ifdef C06_NO_VSNPRINTF
+    if (!strcmp(op, "vsn"))
+        return;
+#endif
+    Parsed P = classify(f, args);
+    if (!finding_key(P, args).empty())
+        return;
+    std::string line = hex(f);
+    for (auto &a : args) line += " " + arg_str(a);
+    printf("%s %s %s\n", op, n, line.c_str());
+    g_emitted++;
+}
 // length of the output, for choosing buffer sizes around it (glibc; only a
 // hint for the generator, 12 when ISO does not define the format)
 static long out_len_hint(const bytes &f, const std::vector<Arg> &args)
@@ -926,6 +971,22 @@ static void gen_wrappers(rng &r, bool th)
         for (long lim = -1; lim <= n + 1; lim++)
             emit_n("fdv", lim, f, args);
     }
+    // declared sizes that mean "large enough": around INT_MAX, 2^32, SIZE_MAX / 2, SIZE_MAX
+    static const char *const huge_[] = {"4097", "2147483647", "2147483648", "4294967295", "4294967296", "9223372036854775807",
+                                        "9223372036854775808", "18446744073709551614", "18446744073709551615"};
+    for (std::string d : fixed_)
+    {
+        bytes f = B(d);
+        Parsed P = classify(f, {});
+        std::vector<Arg> args;
+        for (char kd : P.need)
+            args.push_back(kd == 'i' ? AI(r.pick(IVALS)) : kd == 'l' ? AL(r.pick(LVALS)) : kd == 'p' ? AP(r.pick(PVALS)) : AS(B("hello"), true));
+        for (const char *h : huge_)
+        {
+            emit_s("sn", h, f, args);
+            emit_s("vsn", h, f, args);
+        }
+    }
     long n6 = th ? 12000 : 1500;
     for (long k = 0; k < n6; k++)
     {
@@ -933,6 +994,11 @@ static void gen_wrappers(rng &r, bool th)
         std::vector<Arg> args;
         rnd_format(r, f, args);
         long n = out_len_hint(f, args);
+        if (k % 16 == 5)
+        {
+            emit_s(k % 32 == 5 ? "sn" : "vsn", huge_[r.below(sizeof huge_ / sizeof *huge_)], f, args);
+            continue;
+        }
         long size;
         switch ((int)r.below(6))
         {
